@@ -85,6 +85,22 @@ def dt(a):
     return str(a.dtype) if hasattr(a, 'dtype') else type(a).__name__
 
 
+def tb_columns(tb):
+    """Column arrays read straight off the block list (no extraction logic involved)."""
+    out = []
+    for b in tb._blocks:
+        if b.ndim == 1:
+            out.append(b)
+        else:
+            for k in range(b.shape[1]):
+                out.append(b[:, k])
+    return out
+
+
+def columns_of(f):
+    return tb_columns(f._blocks)
+
+
 def snap_index(ix):
     if isinstance(ix, IndexHierarchy):
         try:
@@ -112,16 +128,14 @@ def snap(x):
     if isinstance(x, sf.Frame):
         cols = []
         try:
-            for j in range(x._blocks.shape[1]):
-                a = x._blocks._extract_array_column(j)
+            for a in columns_of(x):
                 cols.append((str(a.dtype), norm_array(a)))
         except Exception as e:
             cols.append(('CORRUPT', type(e).__name__))
         return ('F', type(x).__name__, norm(x.name), x.shape, snap_index(x.index), snap_index(x.columns), tuple(cols))
     if isinstance(x, TypeBlocks):
         cols = []
-        for j in range(x.shape[1]):
-            a = x._extract_array_column(j)
+        for a in tb_columns(x):
             cols.append((str(a.dtype), norm_array(a)))
         return ('TB', x.shape, tuple(cols))
     if isinstance(x, np.ndarray):
@@ -143,7 +157,7 @@ def content(x):
         return ('S', content(x.index), tuple(val(v) for v in x.values))
     if isinstance(x, sf.Frame):
         return ('F', content(x.index), content(x.columns),
-                tuple(tuple(val(v) for v in x._blocks._extract_array_column(j)) for j in range(x.shape[1])))
+                tuple(tuple(val(v) for v in a) for a in columns_of(x)))
     return val(x)
 
 
